@@ -9,7 +9,7 @@ import copy
 from . import engine as E
 
 STUBS = [
-    'bytearray -> list-backed SymByteArray in bytecode.packed_bits, line_object, engine',
+    'bytearray -> list-backed SymByteArray in bytecode.packed_bits, bytecode.assembled, line_object, engine',
     'int -> proxy-aware cast (always yields a proxy; isinstance(x, int) accepts proxies) in expression, utilities, bytecode.parts, model, line_object.data_line',
     'float/Fraction -> exact rational proxy (SymRat) in expression',
     'open(..., "w"/"wb") in engine -> in-memory capture (records every open and write)',
@@ -96,6 +96,8 @@ def install():
     pbm.bytearray = E.SymByteArray
     lom.bytearray = E.SymByteArray
     eng.bytearray = E.SymByteArray
+    import bespokeasm.assembler.bytecode.assembled as asmd
+    asmd.bytearray = E.SymByteArray
     expr.int = E.sym_int
     expr.float = E.sym_float
     if hasattr(expr, 'Fraction'):
